@@ -329,6 +329,13 @@ def run_c05(R, tier, rng):
                             Xs = [[sgn * (abs(int(v)) % 7 + 2) if not dt.startswith("float") else sgn * (abs(v) + 1.5) for v in r] for r in X]
                             flats = np.array([v for r in Xs for v in r], dtype=dt)
                             C.cmp(f"np.{meth} axis=None one-sign {sgn} {dt} {ls}", meth + "/axis=None", nt, lambda: key(f(RA(Xs, dt))), lambda: key(f(flats)), py=f"np.{meth}(RaggedArray({Xs}, dtype='{dt}'))")
+            if ne and rep < 3:
+                # the exact reductions on the extremes of the dtype (and NaN-free infinities): negation, abs or a cast to int64 would wrap here
+                XE = fill(ls, [v for v in VALS[dt] if v == v], si + 1); rowsE = [np.array(r, dtype=dt) for r in XE]
+                for meth in ("max", "min", "argmax", "argmin"):
+                    f = getattr(np, meth)
+                    C.cmp(f"{meth}/extremes {dt} {ls}", meth + "/extremes", nt, lambda: kl(getattr(RA(XE, dt), meth)(axis=-1))[:0] + [key(x) for i, x in zip(range(n), np.asarray(getattr(RA(XE, dt), meth)(axis=-1))) if (meth.startswith("arg") or i in ne)],
+                          lambda: [key(f(rowsE[i])) for i in ne], py=f"RaggedArray({XE}, dtype='{dt}').{meth}(axis=-1)  (non-empty rows compared)")
             if ne:
                 for meth in ("argmax", "argmin"):
                     f = getattr(np, meth)
@@ -348,6 +355,16 @@ def run_c07(R, tier, rng):
     ints = ["int8", "int16", "int32", "int64", "uint8", "uint64"]
     allk = ["bool", "int8", "int32", "int64", "uint8", "uint64", "float32", "float64"]
     EXT = dict(VALS); EXT["float32"] = [1e16, 1.0, 0.1, -1e16, 0.5, 1.0]; EXT["float64"] = [1e16, 1.0, 0.1, -1e16, 0.5, 1.0]
+    # skewed shapes (many short or empty rows next to a long one) with floats that an offset-and-subtract scheme would not survive
+    for ls in ([2] + [0] * 8 + [2, 1], [16, 2, 1, 1, 1, 1], [1, 0, 0, 0, 0, 0, 3], [0] * 6 + [5], [12] + [1] * 9):
+        for dt in ("float64", "float32"):
+            for vals in ([float("inf"), 1.0, 0.1, 2.0, 0.3], [1e17, 1.0, 0.1, -1e17, 0.5, 1.0], [0.1, 0.2, 0.3, 0.7]):
+                X = fill(ls, vals, 0); rows = [np.array(r, dtype=dt) for r in X]
+                for ufn in ("add", "subtract"):
+                    uf = getattr(np, ufn)
+                    with np.errstate(all="ignore"):
+                        C.cmp(f"{ufn}.accumulate skewed {dt} {ls} {vals}", "accumulate/skewed-shape", True, lambda: ra_obs(uf.accumulate(RaggedArray(X, dtype=dt), axis=-1)),
+                              lambda: rows_obs([uf.accumulate(r) for r in rows], dt), py=f"np.{ufn}.accumulate(RaggedArray({X}, dtype='{dt}'), axis=-1)")
     for si, ls in enumerate(sh):
         n = len(ls); nt = n >= 2 and sum(ls) > 0
         for rep in range(3 if tier != "thorough" else 8):
@@ -428,6 +445,20 @@ def run_c08(R, tier, rng):
                 for ax in (-1, 1):
                     C.cmp(f"concat1 {k} ax={ax} {tagc}", "concatenate/axis1", nt, lambda: ra_obs(np.concatenate([RaggedArray(o, dtype=dt) for o in ops], axis=ax)),
                           lambda: rows_obs([np.concatenate([np.array(o[i], dtype=dt) for o in ops]) for i in range(n)], dt), py=f"np.concatenate([RaggedArray(o, dtype='{dt}') for o in {ops}], axis={ax})")
+            # operands of different dtypes (the narrower one first): numpy's common dtype, no value cast down
+            if n and sum(ls):
+                for dt2 in ("float64", "int64", "uint8"):
+                    if dt2 == dt or (dt, dt2) in (("float64", "int64"), ("float64", "uint8"), ("int64", "uint8"), ("float32", "uint8")): continue
+                    Y2 = fill([(l + 1) % 3 for l in ls], SMALL[dt2] + ([0.5, 2 ** 40] if dt2 == "float64" else [2 ** 40] if dt2 == "int64" else [200]), si + 2)
+                    rt = np.result_type(np.dtype(dt), np.dtype(dt2))
+                    if n and any(len(r) for r in Y2):
+                        C.cmp(f"concat1 mixed {dt}+{dt2} {ls}", "concatenate/axis1-mixed-dtypes", nt, lambda: ra_obs(np.concatenate([RaggedArray(X, dtype=dt), RaggedArray(Y2, dtype=dt2)], axis=1)),
+                              lambda: rows_obs([np.concatenate([np.array(a_, dtype=dt), np.array(b_, dtype=dt2)]) for a_, b_ in zip(X, Y2)], rt),
+                              py=f"np.concatenate([RaggedArray({X}, dtype='{dt}'), RaggedArray({Y2}, dtype='{dt2}')], axis=1)")
+                    Y0 = fill([2, 1], SMALL[dt2] + ([0.5] if dt2 == "float64" else []), si)
+                    C.cmp(f"concat0 mixed {dt}+{dt2} {ls}", "concatenate/axis0-mixed-dtypes", nt, lambda: ra_obs(np.concatenate([RaggedArray(X, dtype=dt), RaggedArray(Y0, dtype=dt2)])),
+                          lambda: rows_obs([np.array(r, dtype=dt).astype(rt) for r in X] + [np.array(r, dtype=dt2).astype(rt) for r in Y0], rt),
+                          py=f"np.concatenate([RaggedArray({X}, dtype='{dt}'), RaggedArray({Y0}, dtype='{dt2}')])")
             for fn, fillv in (("zeros_like", 0), ("ones_like", 1)):
                 f = getattr(np, fn)
                 C.cmp(f"{fn} {tagc}", fn, nt, lambda: ra_obs(f(mk())), lambda: rows_obs([np.full(l, fillv, dtype=dt) for l in ls], dt), py=f"np.{fn}(RaggedArray({X}, dtype='{dt}'))")
@@ -507,6 +538,43 @@ def run_c08(R, tier, rng):
         st = [rng.randint(0, nc) for _ in range(nr)]; en = [rng.choice([rng.randint(s, nc), -rng.randint(1, nc)]) for s in st]
         C.cmp(f"rslice 2d {dt} {a2} {st} {en}", "ragged_slice/2d", True, lambda: ra_obs(ragged_slice(np.array(a2, dtype=dt), np.array(st), np.array(en))),
               lambda: rows_obs([np.array(r[s:e], dtype=dt) for r, s, e in zip(a2, st, en)], dt), py=f"ragged_slice(np.array({a2}, dtype='{dt}'), np.array({st}), np.array({en}))")
+
+
+def ownership_stage(R, tier, rng):
+    """who owns a returned array: the result of an operation and its operand(s) are independent objects - writing into one afterwards
+    (a later public call) never shows in the other.  Shapes include rows of equal length, one row, zero-row operands, single-operand lists."""
+    import numpy as np
+    from npstructures import RaggedArray, ragged_slice
+    C = Ctx(R, "ownership")
+    shapes = [[2, 2], [3], [1, 1, 1], [2, 0, 1], [0, 2], [3, 3, 3], [1], [2, 1]]
+    for si, ls in enumerate(shapes):
+        for dt in ("int64", "float64", "int8"):
+            X = fill(ls, SMALL[dt], si); n = len(ls); nt = n >= 2
+            newv = SMALL[dt][(si + 3) % len(SMALL[dt])] + 1
+            mk = lambda: RaggedArray(X, dtype=dt)
+            empty = lambda: RaggedArray(X, dtype=dt)[:0]
+            ops = [("concatenate([a, a[:0]])", lambda a: np.concatenate([a, empty()])), ("concatenate([a[:0], a])", lambda a: np.concatenate([empty(), a])),
+                   ("concatenate([a])", lambda a: np.concatenate([a])), ("concatenate([a, a])", lambda a: np.concatenate([a, a])),
+                   ("concatenate([a, zeros_like(a)], axis=1)", lambda a: np.concatenate([a, np.zeros_like(a)], axis=1)),
+                   ("concatenate([a, a[:, :0]], axis=1)", lambda a: np.concatenate([a, a[:, :0]], axis=1)),
+                   ("as_padded_matrix()", lambda a: a.as_padded_matrix()), ("as_padded_matrix(side='left')", lambda a: a.as_padded_matrix(side="left")),
+                   ("astype(same)", lambda a: a.astype(dt)), ("np.where(a == a, a, a)", lambda a: np.where(a == a, a, a)), ("subset(all true)", lambda a: a.subset(a == a)),
+                   ("a[a == a]", lambda a: a[a == a]), ("ragged_slice(a, 0s, lengths)", lambda a: ragged_slice(a, np.zeros(n, dtype=int), np.array(ls))),
+                   ("a + 0", lambda a: a + 0), ("np.maximum(a, a)", lambda a: np.maximum(a, a)),
+                   ("np.cumsum(a, axis=-1)", lambda a: np.cumsum(a, axis=-1) if dt != "float64" else a + 0), ("a.sort(axis=-1)", lambda a: a.sort(axis=-1)), ("np.zeros_like(a) + a", lambda a: np.zeros_like(a) + a)]
+            def obs(v):
+                return kl(v.tolist()) if hasattr(v, "tolist") else kl(v)
+            for name, op in ops:
+                def seq():
+                    a = mk(); r = op(a); r0 = obs(r)
+                    a.fill(newv)                                     # a later write to the operand ...
+                    same_result = obs(r) == r0                       # ... does not show in the result
+                    a = mk(); r = op(a); a0 = obs(a)
+                    if isinstance(r, np.ndarray): r[...] = newv      # a later write into the result ...
+                    else: r.fill(newv)
+                    return [same_result, obs(a) == a0]               # ... does not show in the operand
+                C.cmp(f"{name} {dt} {ls}", "ownership/" + name.split("(")[0], nt, seq, lambda: [True, True],
+                      py=f"a = RaggedArray({X}, dtype='{dt}'); r = {name}; a.fill({newv}); r unchanged?  /  r.fill({newv}); a unchanged?")
 
 
 # ------------------------------------------------------------------------------------------------ C09
